@@ -53,7 +53,7 @@ struct Spec {
 // ---- independent writer: raw cfitsio calls, documented layout -----------------------------
 struct Bytes { void *p = nullptr; size_t n = 0; };
 static inline Bytes mkfits(const Spec &s) {
-	fitsfile *f; int st = 0; size_t sz = 2880; void *buf = malloc(sz);
+	fitsfile *f; int st = 0; size_t sz = 2880; void *buf = calloc(1, sz); // zeroed: cfitsio scans the fresh buffer for END cards (memcheck noise otherwise)
 	fits_create_memfile(&f, &buf, &sz, 2880, realloc, &st);
 	int nd = s.ndim();
 	std::vector<long> nax(nd); long tot = 1;
